@@ -54,6 +54,9 @@ fn main() {
     if id == "C17MIRI" {
         std::process::exit(props::c17::miri_scenario());
     }
+    // case watchdog: generous (cases are sub-second); VERIF_CASE_DEADLINE_S overrides. C05/C17 have their own finer watchdogs.
+    let dl: u64 = std::env::var("VERIF_CASE_DEADLINE_S").ok().and_then(|s| s.parse().ok()).unwrap_or(if cfg.quick() { 420 } else { 1500 });
+    rt::start_case_watchdog(id.clone(), cfg.clone(), verif_dir.clone(), std::time::Duration::from_secs(dl));
     let mut report = rt::Report::new();
     let meta = match props::dispatch(&id, &cfg, &mut report) {
         Some(m) => m,
